@@ -372,6 +372,32 @@ def special_value_trees():
     return out
 
 
+def extreme_value_trees():
+    """literal-only trees whose operands are the EXTREMES of the integer kinds, which no single literal spells: the smallest int as
+    `-2147483647 - 1`, the smallest bigint, -1 as `-1` and as `0 - 1`, 255 as a sum of bytes - under every operator, on either side,
+    negated, and fed into a further operator (the asymmetric cases of two's complement: MIN / -1, MIN % -1, -MIN, MIN - 1, MIN * -1)"""
+    I_, B_ = (lambda v: L("int", v)), (lambda v: L("bigint", v))
+    imin = ("bin", "-", ("neg", I_(2147483647)), I_(1))
+    bmin = ("bin", "-", ("neg", B_(2 ** 127 - 1)), B_(1))
+    lefts = [imin, bmin, ("neg", I_(2147483647)), I_(2147483647), B_(2 ** 127 - 1), ("bin", "+", L("byte", 255), L("byte", 0)), ("bin", "-", I_(0), I_(2147483647))]
+    rights = [("neg", I_(1)), ("bin", "-", I_(0), I_(1)), ("neg", B_(1)), I_(1), I_(0), I_(2), L("byte", 1), L("byte", 255), imin, bmin, I_(31), I_(32), B_(127)]
+    out = []
+    for a in lefts:
+        out += [("neg", a), ("neg", ("neg", a))]
+        for b in rights:
+            for op in ARITH + BITS:
+                for t in (("bin", op, a, b), ("bin", op, b, a)):
+                    if well_typed(t):
+                        out.append(t)
+                        out.append(("bin", "+", t, I_(1)) if well_typed(("bin", "+", t, I_(1))) else t)
+    seen, uniq = set(), []
+    for t in out:
+        if str(t) not in seen:
+            seen.add(str(t))
+            uniq.append(t)
+    return uniq
+
+
 def chunks(l, n):
     return [l[i:i + n] for i in range(0, len(l), n)]
 
@@ -408,6 +434,8 @@ def enumerated(tier, seed):
     sh = list(d1)
     _r.Random(seed + 17).shuffle(sh)
     cases += [{"trees": c, "family": "shuffled"} for c in chunks(sh if tier != "quick" else sh[:len(sh) // 2], 60)]
+    ev = extreme_value_trees()
+    cases += [{"trees": c, "family": "extreme-values"} for c in chunks(ev, 60)] + [{"trees": c, "in_list": True, "family": "extreme-values"} for c in chunks(ev[::4], 60)]
     sv = special_value_trees()
     cases += [{"trees": c} for c in chunks(sv, 60)] + [{"trees": c, "in_list": True} for c in chunks(sv[::3], 60)]
     return cases
